@@ -9,7 +9,6 @@ ASSUMPTIONS = [
     "C04: same one-step harness and universes as C03; the predicate is pairwise-distinct sibling names, truthy names, canonical ids",
     "C04: ids: a canonical id mutated by symbolic switches (case, braces, urn prefix, truncation at a symbolic length, one character "
     "replaced by a symbolic character from {g, 0, -, {, space, G}), or a free string of length <= 2; uuid.UUID itself is executed (pure Python)",
-    "C04: pre-states that are only reachable through the open findings of C03 (an object listed in two containers) are outside the claim",
 ]
 
 
